@@ -54,6 +54,10 @@ func c10(r *Report) {
 		_, isBin := ia.Index.(*ssa.BinOp)
 		return isBin
 	}), Check: CallCheck(Fn(ds, "event", "before"), -1, IsTrue)})
+	c10InsertCoversFront(r, p.Func(ds, "eventList", "insert"))
+	tb := CallEffect(Fn("std:time", "Time", "Before"))
+	r.Gate(Gate{ID: "C10.total-order.time-compared-only-for-equal-clocks.not-greater", Fn: before, Effect: tb, Check: CmpCheck("e.Clock > other.Clock is false", token.LSS, PathV("other.Clock"), PathV("e.Clock"), false)})
+	r.Gate(Gate{ID: "C10.total-order.time-compared-only-for-equal-clocks.not-less", Fn: before, Effect: tb, Check: CmpCheck("e.Clock < other.Clock is false", token.LSS, PathV("e.Clock"), PathV("other.Clock"), false)})
 	// (4) sticky deactivation
 	c10Sticky(r)
 	// (5) positional metadata references, (6) conflict counter mirrors the conflicted shelf
@@ -408,4 +412,47 @@ func valueSources(v ssa.Value, depth int) string {
 		return x.Op.String() + valueSources(x.X, depth+1)
 	}
 	return v.Name()
+}
+
+// c10InsertCoversFront: the backwards insertion loop visits every index down to and including 0.
+func c10InsertCoversFront(r *Report, fn *ssa.Function) {
+	rule := "ORDER: the insertion loop runs from the last index down to and including index 0 (an event that sorts before all others reaches the front)"
+	key := "C10.insert.covers-index-0"
+	if fn == nil {
+		r.Lost(key, rule, "insert not found")
+		return
+	}
+	calls := Calls(fn, Fn("vdr/didnuts/didstore", "event", "before"))
+	if len(calls) != 1 {
+		r.Lost(key, rule, fmt.Sprintf("%d before() calls in insert", len(calls)))
+		return
+	}
+	l := InnermostLoop(Loops(fn), calls[0].Block())
+	if l == nil {
+		r.Bad(key, rule, r.P.Pos(calls[0].Pos()), "before() is not called in a loop")
+		return
+	}
+	r.Sites++
+	// header: if i >= 0 (spelled i >= 0, 0 <= i, i > -1, -1 < i)
+	var cond *ssa.BinOp
+	if len(l.Header.Instrs) > 0 {
+		if iff, ok := l.Header.Instrs[len(l.Header.Instrs)-1].(*ssa.If); ok {
+			cond, _ = iff.Cond.(*ssa.BinOp)
+		}
+	}
+	if cond == nil {
+		r.Undecided(key, rule, r.P.Pos(calls[0].Pos()), "loop condition not recognised")
+		return
+	}
+	ok := false
+	if c, isC := ConstInt(cond.Y); isC {
+		ok = cond.Op == token.GEQ && c == 0 || cond.Op == token.GTR && c == -1
+	} else if c, isC := ConstInt(cond.X); isC {
+		ok = cond.Op == token.LEQ && c == 0 || cond.Op == token.LSS && c == -1
+	}
+	if !ok {
+		r.Bad(key, rule, r.P.Pos(cond.Pos()), "the loop condition is "+cond.String()+": index 0 is not visited")
+		return
+	}
+	r.OK(key, rule, r.P.Pos(cond.Pos()), "loop runs while i >= 0", true)
 }
